@@ -197,8 +197,12 @@ func (w *Wrapper) SetID(id string) {
 // Set sets the value associated to the attribute named after key.
 func (w *Wrapper) Set(key string, val any) {
 	if key == "id" {
-		id, _ := val.(string)
-		w.SetID(id)
+		// The ID field can be of a named string type, which a string
+		// value cannot be assigned to through setField.
+		if id, ok := val.(string); ok {
+			w.SetID(id)
+			return
+		}
 	}
 
 	w.setField(key, val)
